@@ -156,6 +156,11 @@ def gen(rng, n):
         # open a line that is not the last one of the feeder's list (and not the first)
         k = rng.randrange(1, nb - 1)
         loads = [[str(rng.choice([F(1, 50), F(1, 20), F(1, 10)])), str(rng.choice([F(0), F(1, 100)])), str(rng.choice([1, 2, 5, 10]))] for _ in range(nb + 6)]
+        # interruption costs are stated by hand here: some load points cost nothing to shed (every third case: all of them)
+        for ld in loads:
+            if q % 3 == 2 or rng.random() < 0.3:
+                ld[2] = "0"
+        loads[q % nb][2] = "0"
         fd["cap"] = [str(F(3, 50))] + [None] * (nb - 1)          # the feed cannot carry everything: something is shed among the connected buses
         cases.append({"kind": "lp-run", "spec": spec, "n_inc": 1, "dt": str(rng.choice([F(1), F(1, 2)])), "faults": {},
                       "direct": {"open": [f"F0L{k}a"], "loads": loads}})
@@ -169,7 +174,8 @@ def island_desc(sub, reactive):
     lines = [l for l in sub.lines if l.connected]
     idx = {b.name: i for i, b in enumerate(buses)}
     loads = [max(F(0), fx(b.qload if reactive else b.pload)) for b in buses]
-    costs = [fx(b.get_cost()) for b in buses]
+    stated = getattr(sub, "_verif_stated_costs", None) or {}       # costs stated by hand (stand-alone use), else what the bus says
+    costs = [stated[b.name] if b.name in stated else fx(b.get_cost()) for b in buses]
     gens = []
     for b in buses:
         is_trafo = any(isinstance(n, Transmission) and b == n.get_trafo_bus() for n in sub.child_network_list)
@@ -243,6 +249,7 @@ def run_and_capture(case, observe=None):
             ps = net.build(dict(case["spec"], exact=False))
             sim = None
             k = 0
+            stated = ps._verif_stated_costs = {"B0": F(1)}
             for b in ps.buses:
                 if b.name == "B0":
                     b.add_load(pload=0, qload=0); b.set_cost(1)
@@ -250,6 +257,7 @@ def run_and_capture(case, observe=None):
                 ld = case["direct"]["loads"][k % len(case["direct"]["loads"])]; k += 1
                 b.add_load(pload=float(F(ld[0])), qload=float(F(ld[1])))
                 b.set_cost(float(F(ld[2])))
+                stated[b.name] = F(ld[2])
             for name in case["direct"]["open"]:
                 ps.get_comp(name).open()
             ps.get_comp("B0").set_slack()
